@@ -977,7 +977,8 @@ def compare_kinds(ctx, kinds, label, encname, dec, desc, b, variant):
                      'packet_sizes': kinds.packet_sizes, 'none_pattern': kinds.none_pattern}
         runs = [('decode', k, 'bytes', decode_outcome, ref) for k in Kinds.NAMES[1:]] + \
                [('StreamingDecoder', k, 'bytes', stream_outcome, sref) for k in Kinds.NAMES[1:]] + \
-               [('StreamingDecoder', k, twin, stream_outcome, None) for k, twin in Kinds.STREAM_ONLY]
+               [('StreamingDecoder', k, twin, stream_outcome, None) for k, twin in Kinds.STREAM_ONLY] + \
+               [('StreamingDecoder', k, 'bytes', stream_outcome, sref) for pair in Kinds.STREAM_ONLY for k in pair if sref[0] == 'ok']    # ... and with the plain octets
         for api, kind, against, fn, refout in runs:
             if refout is None:
                 refout = fn(dec, kinds, against, spec)
